@@ -537,8 +537,45 @@ class SimFS(object):
 # the simulator: owns every seam for the duration of one scenario
 # ---------------------------------------------------------------------------
 
+CURRENT_SCRATCH = None
+
+
+def target_kwargs(target):
+    """Shaper arguments for a target specification of a scenario document: '_via_file' hands target classes / shape
+    maps over as files, '_json' rewrites a fixed shape map in the JSON syntax."""
+    t = {k: v for k, v in target.items() if not k.startswith("_")}
+    t = json.loads(json.dumps(t))
+    if target.get("_json") and "shape_map_raw" in t:
+        items = []
+        for line in t["shape_map_raw"].split("\n"):
+            if line.strip():
+                sel, lab = line.rsplit("@", 1)
+                items.append({"nodeSelector": sel.strip(), "shapeLabel": lab.strip()})
+        t["shape_map_raw"] = json.dumps(items)
+        t["shape_map_format"] = "json"
+    if target.get("_via_file"):
+        global _TARGET_FILES
+        _TARGET_FILES += 1
+        path = os.path.join(CURRENT_SCRATCH or ".", "target_%d.txt" % _TARGET_FILES)
+        if "target_classes" in t:
+            with builtins.open(path, "w", encoding="utf-8") as f:
+                f.write("\n".join(t.pop("target_classes")) + "\n")
+            t["file_target_classes"] = path
+        elif "shape_map_raw" in t:
+            with builtins.open(path, "w", encoding="utf-8") as f:
+                f.write(t.pop("shape_map_raw"))
+            t["shape_map_file"] = path
+    return t
+
+
+_TARGET_FILES = 0
+
+
 class Sim(object):
     def __init__(self, scratch):
+        global CURRENT_SCRATCH, _TARGET_FILES
+        CURRENT_SCRATCH = scratch
+        _TARGET_FILES = 0
         self.scratch = scratch
         self.clock = 0.0
         self.log = EventLog()
